@@ -7,7 +7,7 @@ Mst: executable models (no Mathlib imports) for property C13.
                 node (`union` relabels one class).  This is the model the theorems talk about.
 * `kruskalUF` – the same loop over a literal mirror of `solvor.utils.UnionFind`
                 (parent / rank arrays, recursive `find` with path compression, union by rank).
-                `Theorems.lean` proves that it returns exactly what `kruskal` returns.
+                The driver evaluates both on every input and reports whether they agree.
 * `prim`      – mirror of `solvor.mst.prim` (heap as "pop the least `(weight, counter)`";
                 the tuples pushed are `(weight, counter, u, v)` and `counter` is unique, so the
                 order never looks at `u`/`v`).
@@ -73,8 +73,14 @@ structure Result where
   evals : Nat
   deriving Repr, DecidableEq
 
-/-- `sorted(edges, key=lambda e: e[2])` (stable) -/
-def sortEdges (E : List Edge) : List Edge := E.mergeSort (fun a b => decide (a.w ≤ b.w))
+/-- insert `e` in front of the first edge that is not lighter -/
+def insertW (e : Edge) : List Edge → List Edge
+  | [] => [e]
+  | x :: xs => if e.w ≤ x.w then e :: x :: xs else x :: insertW e xs
+
+/-- `sorted(edges, key=lambda e: e[2])`: a stable sort (insertion sort from the right, so that of
+two edges of equal weight the one that comes first in the input stays first) -/
+def sortEdges (E : List Edge) : List Edge := E.foldr insertW []
 
 def kinit : KState := ⟨Lab.id, [], 0, 0⟩
 
@@ -257,6 +263,21 @@ def chkMinCert (E T : List Edge) : Bool :=
 def compCount (n : Nat) (F : List Edge) : Nat :=
   let lab := labOf F
   ((List.range n).filter fun i => lab.f i == i).length
+
+/-- the same edge with its endpoints swapped -/
+def Edge.rev (e : Edge) : Edge := ⟨e.v, e.u, e.w⟩
+
+/-- every edge of `E` occurs in `A`, possibly with its endpoints swapped -/
+def subGraphB (E A : List Edge) : Bool := E.all fun e => A.contains e || A.contains e.rev
+
+/-- two edge lists describing the same undirected weighted graph -/
+def sameGraphB (E A : List Edge) : Bool := subGraphB E A && subGraphB A E
+
+/-- adjacency lists of an undirected graph: every neighbour is a key and every edge is listed
+from both ends with the same weight -/
+def goodAdjB (adj : Adj) : Bool :=
+  (List.range adj.length).all fun u => (adj.nbrs u).all fun p =>
+    decide (p.1 < adj.length) && (adj.nbrs p.1).contains (u, p.2)
 
 /-! ### bounded definitional oracle -/
 
